@@ -96,6 +96,21 @@ Definition sp_bytes (m : smode) (n : Z) (bits : list bool) : sres :=
   | None => SStop
   end.
 
+(* binary shift invoked from mode m, the bits after the B/S code: 5-bit length;
+   0 = an 11-bit length minus 31 follows; then the bytes; afterwards the mode
+   is the one B/S was invoked from *)
+Definition sp_binshift (m : smode) (rest : list bool) : sres :=
+  match sp_rd 5 0 rest with
+  | None => SStop
+  | Some (n, rest2) =>
+    if n =? 0 then
+      match sp_rd 11 0 rest2 with
+      | None => SStop
+      | Some (n2, rest3) => sp_bytes m (n2 + 31) rest3
+      end
+    else sp_bytes m n rest2
+  end.
+
 Definition sp_step (m : smode) (bits : list bool) : sres :=
   match sp_rd (sp_width m) 0 bits with
   | None => SStop
@@ -113,22 +128,18 @@ Definition sp_step (m : smode) (bits : list bool) : sres :=
         match nth_error (sp_tbl m') (Z.to_nat c2) with
         | Some (Ch a) => SEmit [a] m rest2
         | Some (Pair a b) => SEmit [a; b] m rest2
+        | Some BinShift =>
+          (* a binary shift inside a shift: this reader does not interpret it,
+             but the padding of a symbol that ends in Digit mode reads as
+             U/S B/S followed by too few bits, which is the end of the data *)
+          match sp_binshift m' rest2 with
+          | SStop => SStop
+          | _ => SBad
+          end
         | _ => SBad
         end
       end
-    | Some BinShift =>
-      (* 5-bit length; 0 = an 11-bit length minus 31 follows; then the bytes;
-         afterwards the mode is the one B/S was invoked from *)
-      match sp_rd 5 0 rest with
-      | None => SStop
-      | Some (n, rest2) =>
-        if n =? 0 then
-          match sp_rd 11 0 rest2 with
-          | None => SStop
-          | Some (n2, rest3) => sp_bytes m (n2 + 31) rest3
-          end
-        else sp_bytes m n rest2
-      end
+    | Some BinShift => sp_binshift m rest
     | Some Flg => SBad
     end
   end.
